@@ -291,6 +291,17 @@ fn lex_and_parse_number<N: FromLexicalWithOptions, const FORMAT: u128>(
         input: LexInput,
         options: &'static N::Options,
     ) -> lexical::Result<(N, usize)> {
+        // A digit separator may not lead the fraction, so a number ends at the dot of a `._`.
+        // Do not show lexical what follows: its many-digit slow path mishandles a fraction that
+        // starts with a separator (it trips a debug assertion on `1._0000000000000000001`).
+        let candidate_len = input
+            .find(|c: char| !(c.is_ascii_alphanumeric() || matches!(c, '_' | '.' | '+' | '-')))
+            .unwrap_or(input.len());
+        let input = match input.slice(..candidate_len).find("._") {
+            Some(dot) => input.slice(..dot + 1),
+            None => input,
+        };
+
         let result @ (_, len) =
             lexical::parse_partial_with_options::<N, _, FORMAT>(input, options)?;
 
